@@ -795,8 +795,11 @@ def pred_c05(view, script=None):
         by_req.setdefault((r["typ"], r["len"], r["hash"]), []).append(c)
     seen_req = {}
     req_ids = []
+    # a client without the built-in ackHandler never writes an acknowledgement of its own: every KeepAliveAck on its wire was
+    # submitted by a caller (the application acknowledging by hand) and got its id from the client like any other message
+    no_ack = bool(script) and any(st.get("no_ack_handler") for st in script["steps"] if st["op"] in ("connect", "new_client"))
     for i, f in enumerate(frames):
-        if f["typ"] == T_ACK and f["len"] == 0:
+        if f["typ"] == T_ACK and f["len"] == 0 and not no_ack:
             continue
         key = (f["typ"], f["len"], f["hash"])
         if (f["typ"], f["len"]) in internal and key not in by_req:
@@ -1090,7 +1093,7 @@ def coalesced_script(rnd, sid, focus="mixed"):
 
 
 # ---------------------------------------------------------------- raw wire
-def judge_raw(script, go, view=None, versions=None):
+def judge_raw(script, go, view=None, versions=None, must_complete=False):
     """C05 on the raw bytes the peer took off the wire (peer_read / drain_raw): whole frames, each one a caller's
     request / an acknowledgement / a negotiation message, plus at most one unfinished frame at the very end whose
     bytes are consistent with the beginning of such a frame. Independent python parser."""
@@ -1135,6 +1138,12 @@ def judge_raw(script, go, view=None, versions=None):
                     k += 1
                     continue
         # an unfinished frame: must be the end of what was written
+        if must_complete and pos < len(raw):
+            rest = raw[pos:]
+            lf = int.from_bytes(rest[2:6], "big") if len(rest) >= 6 else None
+            bad.append(("frame-abandoned", "no Write failed and the peer kept reading, yet the stream ends inside a frame: after %d whole "
+                        "frame(s) the header %s announces %s bytes and only %d follow — a started frame is finished, or the connection "
+                        "dies (C05_started_frame_finished_or_dead)" % (k, rest[:10].hex(), lf, len(rest))))
         break
     return bad
 
